@@ -147,8 +147,13 @@ fn wide_trees() -> Vec<Tree> {
                 for (j, m) in NAMES.iter().enumerate() {
                     if (i + j + variant) % 2 == 0 {
                         t.insert(format!("{n}/{m}"), crate::tree::Node::file(b"x", crate::tree::T0 + 710 + j as i64));
+                    } else if (i + j + variant) % 4 == 1 {
+                        t.insert(format!("{n}/{m}"), crate::tree::Node::symlink("../elsewhere", crate::tree::T0 + 740 + j as i64));
                     }
                 }
+            } else if (i + variant) % 3 == 1 {
+                // symlinks are entries like any other: their own path is matched against the patterns
+                t.insert(n.to_string(), crate::tree::Node::symlink("elsewhere", crate::tree::T0 + 730 + i as i64));
             } else {
                 t.insert(n.to_string(), crate::tree::Node::file(b"y", crate::tree::T0 + 720 + i as i64));
             }
